@@ -44,8 +44,8 @@ def D2_team_trim():
     ra = sum(s for v in r.values() for t, s in v if t == "a")
     qa = sum(s for v in q.values() for t, s in v if t == "a")
     a, b = task(p, "a"), task(p, "b")
-    # property C03: booked effort == 90 min exactly; C08: b starts when a ends (r is free from then on)
-    bad = abs((ra + qa) - 5400) > 1 or b[0] != a[1]
+    # property C03: the members of a team are booked for the same instants; C08: b starts when a ends (r should be free)
+    bad = abs(ra - qa) > 1 or b[0] != a[1]
     return bad, f"a booked r={ra}s q={qa}s (effort 5400s), a ends {a[1]}, b starts {b[0]}"
 
 
